@@ -24,7 +24,7 @@ from . import VERIF, REPO, shim
 EVIDENCE_DIR = os.path.join(VERIF, "evidence")
 REPLAY_DIR = os.path.join(VERIF, "replays")
 KNOWN = os.path.join(VERIF, "known_findings.json")
-RUN_TIMEOUT_S = int(os.environ.get("VSIM_RUN_TIMEOUT", "300"))
+RUN_TIMEOUT_S = int(os.environ.get("VSIM_RUN_TIMEOUT", "900"))
 
 
 def run_seed(verif_seed, prop, index):
